@@ -31,3 +31,17 @@ Theorem C12_registry_matches_open_tunnels : forall ops, wf_history [] ops ->
   forall k, reg_key_all r k = map fst (keyed k o) /\ (reg_key_ready r k = true <-> keyed k o <> []).
 Proof. exact registry_matches_open_tunnels. Qed.
 Print Assumptions C12_registry_matches_open_tunnels.
+
+(* code shape, regenerated from the source on every run (see theories/SkelClose.v) *)
+From Coq Require Import String.
+From GT Require Import SkelClose.
+From GTgen Require Import Params.
+Local Open Scope string_scope.
+Theorem C12_registry_add_shape : skel_reverseChannels_add =
+  ["call mu.Lock"; "defer call mu.Unlock"; "set chans"; "close avail"].
+Proof. exact reverseChannels_add_shape. Qed.
+Print Assumptions C12_registry_add_shape.
+Theorem C12_registry_remove_shape : skel_reverseChannels_remove =
+  ["call mu.Lock"; "defer call mu.Unlock"; "set chans"; "set avail"].
+Proof. exact reverseChannels_remove_shape. Qed.
+Print Assumptions C12_registry_remove_shape.
